@@ -87,11 +87,20 @@ func (con *Connection) DecryptedRead(b []byte) (int, error) {
 
 	n, err := con.readBuffer.Read(b)
 
-	if n < len(b) || err == io.EOF {
+	if n < len(b) || err == io.EOF || drained(con.readBuffer) {
 		con.readBuffer = nil
 	}
 
 	return n, err
+}
+
+// drained reports whether a decrypted message has been read completely.
+func drained(r io.Reader) bool {
+	if l, ok := r.(interface{ Len() int }); ok {
+		return l.Len() == 0
+	}
+
+	return false
 }
 
 // Write writes bytes to the connection.
